@@ -107,7 +107,8 @@ func (g *PackageLoader) localConfig(pkg *packages.Package, name string) method.L
 		fns = map[string]method.LocalOpts{}
 		for _, file := range pkg.Syntax {
 			for _, decl := range file.Decls {
-				if fn, ok := decl.(*ast.FuncDecl); ok {
+				// methods are no custom functions: their doc comments must not be mistaken for those of a function of the same name
+				if fn, ok := decl.(*ast.FuncDecl); ok && fn.Recv == nil {
 					lines := parse.SettingLines(parse.CommentToString(fn.Doc))
 					if len(lines) == 0 {
 						continue
